@@ -14,7 +14,7 @@ import (
 func init() {
 	register(&propDef{
 		id: "C01", level: "other", run: runC01,
-		explanation: "Decided clause: no reachable panic site is left unguarded and every reachable loop has a recognised progress argument, for all library functions reachable from the five decoding entry points. (R1) validator x consumer matrix: the accepted set of validateFieldDef is folded exactly over (profile class x base-type byte 0..255 x size 0..255; byte order selects no arm) and every accepted point is held against the arm that will consume it: bytes read <= size (ByteOrder.UintN panics otherwise), reflect setter compatible with the struct field's kind, array sizes a multiple of the element size (else reflect Index runs past the slice), padding >= 0 (else a negative scratch index); definitions are stored only on the validator's success edge; the validator itself never panics for any input. (R2) panic-site census: every explicit panic, index, slice, non-comma-ok assertion and division in the reachable functions is discharged by the interval analysis with guard refinement, by a linear loop invariant proved inductive on every run (the string-array scanner's j + k < size), by a length test of the same slice (constant indices), by range-loop semantics, by a C15/C20 table obligation, by R1, or by one of 7 frozen audited entries with its reason (cursor invariant, copy count, invariant panics, dead default arms); map updates need their make on every path (map-nonnil); anything else is reported. (R3) loop census: every back edge is a range loop, a counted loop with positive step, a progress loop that consumes input or exits on error, or a loop with a proved ranking argument (the string scanner). (R4) fill makes progress or fails. NOT decided: readers violating the io.Reader contract (0, nil forever), panics inside the standard library on valid arguments, memory exhaustion; audited sites are trusted as written; 32-bit targets are examined in the thorough tier only.",
+		explanation: "Decided clause: no reachable panic site is left unguarded and every reachable loop has a recognised progress argument, for all library functions reachable from the five decoding entry points. (R1) validator x consumer matrix: the accepted set of validateFieldDef is folded exactly over (profile class x base-type byte 0..255 x size 0..255; byte order selects no arm) and every accepted point is held against the arm that will consume it: bytes read <= size (ByteOrder.UintN panics otherwise), reflect setter compatible with the struct field's kind, array sizes a multiple of the element size (else reflect Index runs past the slice), padding >= 0 (else a negative scratch index); definitions are stored only on the validator's success edge; the validator itself never panics for any input. (R2) panic-site census: every explicit panic, index, slice, non-comma-ok assertion and division in the reachable functions is discharged by the interval analysis with guard refinement, by a linear loop invariant proved inductive on every run (the string-array scanner's j + k < size), by a length test of the same slice (constant indices), by range-loop semantics, by a C15/C20 table obligation, by R1, or by one of 7 frozen audited entries with its reason (cursor invariant, copy count, invariant panics, dead default arms); map updates need their make on every path (map-nonnil); anything else is reported. (R3) loop census: every back edge is a range loop, a counted loop with positive step, a progress loop that consumes input or exits on error, or a loop with a proved ranking argument (the string scanner). (R4) fill makes progress or fails. NOT decided: readers violating the io.Reader contract (0, nil forever), panics inside the standard library on valid arguments, memory exhaustion; audited sites are trusted as written; 32-bit targets are examined in the thorough tier only. Also decided: nil-safety of every dereference / interface call / function-value call in the reachable library functions by origin (C01-R2-nil-deref, C01-R2-nil-param: allocation and address origins, dominating nil tests, parameters by call-site fixpoint over the VTA call graph with the exported entry points' parameters as the stated assumption, callee results on the error-free or ok edge, field disciplines init-before-use and set-before-publish, backward path walk for run-time-assigned package pointers); the four explicit panics are decided structurally, none is audited; Time.In never receives a possibly-nil location.",
 		trusted:     []string{"evaluator and interval transfer functions", "reflect/encoding-binary panic conditions as documented", "frozen audited sites listed in checker/c01.go, one line of reason each"},
 	})
 }
@@ -22,11 +22,6 @@ func init() {
 type auditEntry struct{ fn, pat, reason string }
 
 var c01Audited = []auditEntry{}
-
-var c01AuditedPanics = map[string]string{
-	"decode":          "pre-CRC invariant n == limit: decodeFileData returns nil only through n >= limit (C10-R3) and fill caps n <= limit (C10-R2)",
-	"parseDataFields": "`unknown kind` is dead because every table row has kind 0..4 (C15-2); `known message but not valid` is dead because getMesgAllInvalid returns a valid value for every known number (C15-1)",
-}
 
 func runC01(c *Ctx, r *Report) {
 	roots, missing := c.rootFuncs(decodeRoots)
@@ -52,6 +47,8 @@ func runC01(c *Ctx, r *Report) {
 	c01Matrix(c, r)
 	c01Census(c, r, scope, ri)
 	c01MapNonNil(c, r, scope, roots)
+	c01StdlibArgs(c, r, scope)
+	c01NilSafety(c, r, scope, roots, ri.module())
 	c01Loops(c, r, scope)
 	// R4
 	if fn := c.ssaFn(c.fn(c.fit, "decoder.fill")); fn != nil {
@@ -357,8 +354,8 @@ func c01Site(c *Ctx, bc *boundsCtx, fn *ssa.Function, b *ssa.BasicBlock, ins ssa
 	switch n := ins.(type) {
 	case *ssa.Panic:
 		desc := "panic"
-		if why, ok := c01AuditedPanics[fn.Name()]; ok {
-			return desc, "audited: " + why, true, true
+		if why, ok := c01DeadPanic(c, fn, n); ok {
+			return desc, "dead: " + why, true, true
 		}
 		return desc, "explicit panic in " + fn.Name(), false, true
 	case *ssa.TypeAssert:
@@ -687,41 +684,7 @@ func c01GuardDominance(c *Ctx, r *Report, scope []*ssa.Function) {
 			}
 		}
 	}
-	// pfield is dereferenced only where pfound holds
-	if fn := c.ssaFn(c.fn(c.fit, "decoder.parseDataFields")); fn != nil {
-		ok := true
-		n := 0
-		for _, b := range fn.Blocks {
-			for _, ins := range b.Instrs {
-				fa, isF := ins.(*ssa.FieldAddr)
-				if !isF {
-					continue
-				}
-				ex, isE := fa.X.(*ssa.Extract)
-				if !isE || ex.Index != 0 {
-					continue
-				}
-				call, isC := ex.Tuple.(*ssa.Call)
-				if !isC || call.Common().StaticCallee() == nil || call.Common().StaticCallee().Name() != "getField" {
-					continue
-				}
-				n++
-				found := func(v ssa.Value) bool {
-					e2, ok := v.(*ssa.Extract)
-					return ok && e2.Tuple == ex.Tuple && e2.Index == 1
-				}
-				if domByBoolEdge(fn, b, true, found) {
-					continue
-				}
-				// under padding != 0 (padding is assigned only under pfound)
-				if domByCmpPhiNonZero(fn, b, "padding") {
-					continue
-				}
-				ok = false
-			}
-		}
-		r.check(ok && n > 0, "C01-R2-pfield-nonnil", "parseDataFields", c.pos(fn.Pos()), fmt.Sprintf("%d dereferences of the profile row are under pfound (or under padding != 0, which is assigned only under pfound)", n), "the profile row pointer is dereferenced on a path where the field was not found (nil)")
-	}
+	// (the profile row is dereferenced only where it was found: decided by the nil-safety analysis, C01-R2-nil-deref)
 }
 
 func domByCallTrue(fn *ssa.Function, b *ssa.BasicBlock, method string) bool {
